@@ -33,6 +33,7 @@ type Solver struct {
 	defined map[int]bool
 	depth   int
 	log     io.Writer
+	owner   *TermTable
 
 	timeoutMS int
 	// stats
@@ -80,6 +81,10 @@ func (s *Solver) start() {
 	s.defined = map[int]bool{}
 	s.depth = 0
 	s.sinceRestart = 0
+	s.sendOptions()
+}
+
+func (s *Solver) sendOptions() {
 	if strings.Contains(s.bin, "cvc5") {
 		s.send("(set-option :global-declarations true)")
 		s.send("(set-logic ALL)")
@@ -90,6 +95,14 @@ func (s *Solver) start() {
 		s.send("(set-option :pp.decimal_precision 25)")
 		s.send("(set-option :model.completion true)")
 	}
+}
+
+// Reset forgets all declarations and assertions (new term table).
+func (s *Solver) Reset() {
+	s.send("(reset)")
+	s.defined = map[int]bool{}
+	s.depth = 0
+	s.sendOptions()
 }
 
 func (s *Solver) Close() {
